@@ -192,44 +192,51 @@ func F3p(a int32, b int64, c int8) int {
 	return int(a) + int(b) + int(c) + 1200
 }
 
-// OF1 is F1's origin placeholder (its body is overwritten by goom).
-//
+// OF1 is F1's origin placeholder (its body is overwritten by goom). It is a function literal written inside a
+// generic helper - its symbol is hw.mkPlaceholder[...].func1, a name that looks like an instantiation's - and
+// it contains a call: the bytes goom writes must still land in this literal's own body.
+var OF1 = mkPlaceholder[int]()
+
 //go:noinline
-func OF1(a int) int {
-	x := a
-	x = x*13 + 17
-	if x == 2000 {
-		x++
+func phHelper(a int) int { return a*3 + 1 }
+
+func mkPlaceholder[T any]() func(int) int {
+	return func(a int) int {
+		x := phHelper(a)
+		x = x*13 + 17
+		if x == 2000 {
+			x++
+		}
+		x = x*14 + 18
+		if x == 2001 {
+			x++
+		}
+		x = x*15 + 19
+		if x == 2002 {
+			x++
+		}
+		x = x*16 + 20
+		if x == 2003 {
+			x++
+		}
+		x = x*17 + 21
+		if x == 2004 {
+			x++
+		}
+		x = x*18 + 22
+		if x == 2005 {
+			x++
+		}
+		x = x*19 + 23
+		if x == 2006 {
+			x++
+		}
+		x = x*20 + 24
+		if x == 2007 {
+			x++
+		}
+		return x
 	}
-	x = x*14 + 18
-	if x == 2001 {
-		x++
-	}
-	x = x*15 + 19
-	if x == 2002 {
-		x++
-	}
-	x = x*16 + 20
-	if x == 2003 {
-		x++
-	}
-	x = x*17 + 21
-	if x == 2004 {
-		x++
-	}
-	x = x*18 + 22
-	if x == 2005 {
-		x++
-	}
-	x = x*19 + 23
-	if x == 2006 {
-		x++
-	}
-	x = x*20 + 24
-	if x == 2007 {
-		x++
-	}
-	return x
 }
 
 // V is reached through a value instance (Struct(V{}).Method("ValM")) and through a pointer instance
